@@ -22,6 +22,8 @@ def stages(tier, rng, only=None):
     out.append(ac.stage("random", PID, lambda: ac.cases([ac.random_dataset(rng, 8, 6) for _ in range(n_rand)],
                                                         ["Copeland"], ac.PRESET + ac.grid_sample(rng, 12),
                                                         namings=["ints", "letters", "digits"]), _nt))
+    out.append(ac.stage("larger", PID, lambda: ac.cases([ac.larger_dataset(rng) for _ in range(n_rand // 6)], ["Copeland"],
+                                                        ac.PRESET + ac.MIXEDMAG[:2], namings=["ints", "letters"]), _nt))
     out.append(ac.stage("microscopic_penalties", PID, lambda: ac.scaled_cases(
         grids.datasets(3, 2)[::3] + [ac.random_dataset(rng, 6, 5) for _ in range(n_rand // 4)], ["Copeland"], ac.PRESET,
         40, namings=("ints", "letters")), _nt))
